@@ -90,6 +90,10 @@ DbRecs   == {WithStarted(Rec(i, db[i].port, db[i].p), db[i].started) : i \in DOM
 
 IsCall(name) == Ev.op = "call" /\ Ev.name = name /\ pc[Ev.g].op = "idle"
 
+\* outcomes after which the driver abandons the trace: the process died ("crash", a crash line follows and is the verdict)
+\* or the ENVIRONMENT failed ("env": RPC time-out on a loaded machine, port taken by another process) - no verdict
+Abandoned == {"crash", "env"}
+
 TrCallAdd ==
     /\ IsCall("Add")
     /\ LET r  == Ev.r_res
@@ -99,7 +103,7 @@ TrCallAdd ==
        IN  IF Ev.kind = "bad"
            THEN AtLine(IF r = "bad" THEN "" ELSE "C14.add.malformed-input-accepted",
                        SetFrame(Ev.g, "Add", "done", id, r, a) /\ Frozen)
-           ELSE IF r = "crash"
+           ELSE IF r \in Abandoned
            THEN AtLine("", SetFrame(Ev.g, "Add", "limbo", id, r, a) /\ Frozen)
            ELSE IF r \notin {"ok", "dup", "noport", "storage"}
            THEN Taint("C14.add.unexpected-error")
@@ -112,25 +116,29 @@ TrCallAdd ==
 
 TrCallRemove ==
     /\ IsCall("Remove")
-    /\ IF Ev.r_res = "crash" THEN AtLine("", SetFrame(Ev.g, "Remove", "limbo", Ev.id, "crash", NoArgs) /\ Frozen)
+    /\ IF Ev.r_res \in Abandoned THEN AtLine("", SetFrame(Ev.g, "Remove", "limbo", Ev.id, "crash", NoArgs) /\ Frozen)
        ELSE IF Ev.r_res # "ok" THEN Taint("C14.remove.failed")
        ELSE AtLine("", BeginRemove(Ev.g, Ev.id))
 
 TrCallFlag ==
     /\ Ev.op = "call" /\ Ev.name \in {"Start", "Stop"} /\ pc[Ev.g].op = "idle"
-    /\ IF Ev.r_res = "crash" THEN AtLine("", SetFrame(Ev.g, Ev.name, "limbo", Ev.id, "crash", NoArgs) /\ Frozen)
+    /\ IF Ev.r_res \in Abandoned THEN AtLine("", SetFrame(Ev.g, Ev.name, "limbo", Ev.id, "crash", NoArgs) /\ Frozen)
        ELSE IF Ev.r_res \notin {"ok", "notfound"} THEN Taint("C14.startstop.failed")
        ELSE AtLine("", Begin(Ev.g, Ev.name, "lookup", Ev.id, 0, [rres |-> Ev.r_res]))
 
+\* @obligation C14.panic  no registry operation brings the process (or the calling goroutine) down: judged on the reported
+\*                        outcome alone, hence on every interleaving alike (SOFT)
 TrCallTracker ==
     /\ IsCall("AddTracker")
-    /\ IF Ev.r_res = "crash" THEN AtLine("", SetFrame(Ev.g, "AddTracker", "limbo", Ev.id, "crash", NoArgs) /\ Frozen)
+    /\ Soft(IF Ev.r_res = "panic" THEN "C14.panic.addtracker-without-record" ELSE "")
+    /\ IF Ev.r_res \in Abandoned THEN AtLine("", SetFrame(Ev.g, "AddTracker", "limbo", Ev.id, "crash", NoArgs) /\ Frozen)
        ELSE AtLine("", Begin(Ev.g, "AddTracker", "lookup", Ev.id, 0,
                              [uri |-> Ev.uri, valid |-> Ev.valid, rres |-> Ev.r_res, rpc |-> Ev.rpc]))
 
 \* a caller that kept its *Torrent after the torrent was removed: no lookup, the handle is not the registered one
 TrCallTrackerStale ==
     /\ IsCall("AddTrackerStale")
+    /\ Soft(IF Ev.r_res = "panic" THEN "C14.panic.addtracker-without-record" ELSE "")
     /\ AtLine("", /\ pc' = [pc EXCEPT ![Ev.g] = [op |-> "AddTracker", step |-> "apply", id |-> Ev.id, h |-> -1, port |-> 0, res |-> "",
                                                     a |-> [uri |-> Ev.uri, valid |-> Ev.valid, rres |-> Ev.r_res, rpc |-> Ev.rpc]]]
                   /\ Frozen)
@@ -146,8 +154,10 @@ TrCallBump ==
 
 TrCallClean ==
     /\ IsCall("Clean") /\ OthersIdle
-    /\ Soft(CleanViol(Ev.r_res))
-    /\ IF Ev.r_res = "ok"
+    /\ Soft(IF Ev.r_res \in Abandoned THEN "" ELSE CleanViol(Ev.r_res))
+    /\ IF Ev.r_res \in Abandoned
+       THEN AtLine("", Frozen /\ SetFrame(Ev.g, "Clean", "limbo", "", Ev.r_res, NoArgs))
+       ELSE IF Ev.r_res = "ok"
        \* either reading of "invalid records" is accepted here; the next observation tells which one the code took
        THEN \E keepLive \in BOOLEAN : AtLine("", CleanUpd(keepLive) /\ SetFrame(Ev.g, "Clean", "done", "", Ev.r_res, NoArgs))
        ELSE AtLine("", Frozen /\ SetFrame(Ev.g, "Clean", "done", "", Ev.r_res, NoArgs))
@@ -164,7 +174,9 @@ TrCallCompact ==
 
 TrCallReopen ==
     /\ IsCall("Reopen") /\ OthersIdle
-    /\ IF Ev.r_res = "ok"
+    /\ IF Ev.r_res \in Abandoned
+       THEN AtLine("", Frozen /\ SetFrame(Ev.g, "Reopen", "limbo", "", Ev.r_res, NoArgs))
+       ELSE IF Ev.r_res = "ok"
        THEN AtLine("", ReopenUpd(SetOf(Ev.corrupt)) /\ SetFrame(Ev.g, "Reopen", "done", "", "ok", NoArgs))
        ELSE Taint(ReopenViol(Ev.r_res))
 
@@ -217,6 +229,8 @@ TrRet ==
     /\ pc[Ev.g].res = Ev.res \/ pc[Ev.g].op \in {"Add", "Remove", "Start", "Stop", "AddTracker"}
     /\ Return(Ev.g)
     /\ l' = l + 1 /\ UNCHANGED viol
+
+TrRetAbandoned == Ev.op = "ret" /\ pc[Ev.g].step = "limbo" /\ l' = l + 1 /\ UNCHANGED <<vars, viol>>
 
 -----------------------------------------------------------------------------
 (* observation at a quiescent point                                         *)
@@ -276,7 +290,7 @@ TraceNext ==
     /\ \/ TrInternal
        \/ /\ l <= Len(Trace)
           /\ \/ TrReset \/ TrCallAdd \/ TrCallRemove \/ TrCallFlag \/ TrCallTracker \/ TrCallTrackerStale
-             \/ TrCallBump \/ TrCallClean \/ TrCallCompact \/ TrCallReopen \/ TrRet \/ TrObs \/ TrCrash \/ TrCodec
+             \/ TrCallBump \/ TrCallClean \/ TrCallCompact \/ TrCallReopen \/ TrRet \/ TrRetAbandoned \/ TrObs \/ TrCrash \/ TrCodec
 
 TraceSpec == TraceInit /\ [][TraceNext]_tvars
 
